@@ -703,6 +703,55 @@ func run(c *core.Ctx, idx int) {
 			judge(b.perturb(b.reorder(n.h, c)), false, n.label+"+permuted")
 		}
 	}
+	// two spellings of one closed ring whose closing vertices lie 0.55-0.95 tol on either side of
+	// the start vertex: both rings are closed to within the tolerance, every other vertex is the
+	// same, and the closing vertices are 1.1-1.9 tol apart - one vertex displaced by more than tol
+	if b.off == 0 {
+		var closedPaths []int
+		k := 0
+		mapPts(g, func(p []geom.Point, ring bool) []geom.Point {
+			if ring && len(p) > 3 {
+				closedPaths = append(closedPaths, k)
+			}
+			k++
+			return p
+		})
+		// (not where the chosen ring has a twin among the other members: with duplicated members the
+		// two spellings can be matched crosswise with the exact copies, and Similar is rightly true)
+		kp := -1
+		if len(closedPaths) > 0 {
+			kp = closedPaths[r.Intn(len(closedPaths))]
+			var all [][]geom.Point
+			mapPts(g, func(p []geom.Point, ring bool) []geom.Point {
+				all = append(all, p)
+				return p
+			})
+			for j, p := range all {
+				if j != kp && len(p) == len(all[kp]) && len(p) > 0 && p[0] == all[kp][0] {
+					kp = -1
+					break
+				}
+			}
+		}
+		if kp >= 0 {
+			onX, f := r.Bool(), r.Range(0.55, 0.95)
+			mk := func(sign float64) geom.Geom {
+				return editPath(gen.DeepCopy(g), kp, func(p []geom.Point, ring bool) []geom.Point {
+					if onX {
+						p[len(p)-1].X = shift(p[len(p)-1].X, sign*f*tol, tol)
+					} else {
+						p[len(p)-1].Y = shift(p[len(p)-1].Y, sign*f*tol, tol)
+					}
+					return p
+				})
+			}
+			base, plus, minus := g, mk(1), mk(-1)
+			g = plus
+			c.Count("neg.closing_vertices_either_side_of_the_start")
+			judge(minus, false, "closing_vertices_either_side_of_the_start")
+			g = base
+		}
+	}
 	// other types (all ordered type pairs over the run)
 	for k := 0; k < 8; k++ {
 		if k == kind {
